@@ -195,6 +195,7 @@ func (c *Ctx) Step(step string) string {
 	a := kv(f[1:])
 	w := c.w
 	w.curSwap = c.id
+	defer w.runDeferred()
 	switch f[0] {
 	case "new":
 		c.role, c.chain = f[1], f[2]
@@ -471,6 +472,16 @@ func (c *Ctx) Step(step string) string {
 			w.lbtc.height += n
 		} else {
 			w.btc.height += n
+		}
+		return "ok"
+	case "rewind": // rewind <chain> <n>: the chain back-end reports a lower tip (another server, a node still catching up)
+		n := uint32(atoiDef(f[2], 1))
+		ch := w.btc
+		if f[1] == "lbtc" {
+			ch = w.lbtc
+		}
+		if ch.height > n {
+			ch.height -= n
 		}
 		return "ok"
 	case "payblocks": // payblocks <chain> <n>: blocks arriving between failed claim payment attempts
